@@ -162,7 +162,7 @@ pub fn run_case(ctx: &Ctx, case: u64, ev: &mut Ev) {
     }
 
     // generic check: result is a subsequence (or an allowed canonical form) and denotes the same set
-    let mut check = |name: &str, res: &Aff, ev: &mut Ev| -> Result<Option<Vec<usize>>, String> {
+    let check = |name: &str, res: &Aff, ev: &mut Ev| -> Result<Option<Vec<usize>>, String> {
         if res.mat.iter().any(|r| r.len() != n) && !res.mat.is_empty() {
             return Err(format!("{}: result has wrong dimension", name));
         }
